@@ -232,6 +232,105 @@ type run struct {
 	vanished    bool
 }
 
+// ---- in-process scripted peer -----------------------------------------------------------
+
+// inprocPeer drives the client end of an in-process transport with typed
+// envelopes built from the same input alphabet (no raw bytes there).
+type inprocPeer struct {
+	t   lime.Transport
+	eof bool
+}
+
+func typedEnvelope(in input, sid string) interface{} {
+	if in.kind == "data" {
+		switch in.name {
+		case "message":
+			return lib.Msg("m1", "hi")
+		case "notification":
+			return lib.Not("m1", lime.NotificationEventReceived)
+		case "request":
+			return lib.Req("c1", "/ping")
+		}
+		return lib.Resp("c1")
+	}
+	ses := &lime.Session{State: lime.SessionState(in.state)}
+	switch in.id {
+	case "echo":
+		ses.ID = sid
+	case "wrong":
+		ses.ID = "not-" + sid
+	}
+	ses.Encryption = lime.SessionEncryption(in.enc)
+	ses.Compression = lime.SessionCompression(in.comp)
+	ses.Scheme = lime.AuthenticationScheme(in.scheme)
+	if in.auth != "" {
+		ses.Authentication = authObjTyped(in)
+	}
+	if in.state == "authenticating" {
+		ses.From = lime.ParseNode(clientNode)
+	}
+	return ses
+}
+
+func (p *inprocPeer) send(in input, sid string) bool {
+	ctx, cancel := context.WithTimeout(context.Background(), 30*time.Second)
+	defer cancel()
+	var err error
+	switch e := typedEnvelope(in, sid).(type) {
+	case *lime.Session:
+		err = p.t.Send(ctx, e)
+	case *lime.Message:
+		err = p.t.Send(ctx, e)
+	case *lime.Notification:
+		err = p.t.Send(ctx, e)
+	case *lime.RequestCommand:
+		err = p.t.Send(ctx, e)
+	case *lime.ResponseCommand:
+		err = p.t.Send(ctx, e)
+	}
+	return err == nil
+}
+
+// readOne returns the next envelope the server sent, or false once the rest of
+// the system is idle (the 1ms timer only fires when nothing can run) or the
+// transport is closed.
+func (p *inprocPeer) readOne() (map[string]interface{}, bool) {
+	if p.eof {
+		return nil, false
+	}
+	ctx, cancel := context.WithTimeout(context.Background(), time.Millisecond)
+	defer cancel()
+	env, err := p.t.Receive(ctx)
+	if err != nil {
+		if ctx.Err() == nil {
+			p.eof = true
+		}
+		return nil, false
+	}
+	b, _ := json.Marshal(env)
+	var m map[string]interface{}
+	_ = json.Unmarshal(b, &m)
+	return m, true
+}
+
+func (p *inprocPeer) waitEOF(wait time.Duration) (bool, []map[string]interface{}) {
+	var extra []map[string]interface{}
+	for spent := time.Duration(0); ; spent += 5 * time.Second {
+		for {
+			m, ok := p.readOne()
+			if !ok {
+				break
+			}
+			extra = append(extra, m)
+		}
+		if p.eof || spent >= wait {
+			break
+		}
+		time.Sleep(5 * time.Second)
+	}
+	return p.eof, extra
+}
+
 // ---- the scenario body ----------------------------------------------------------------
 
 func body(variant string, cfgs []Config, depth int, allowTLSRefusal bool) func(x *harness.X) {
@@ -294,6 +393,7 @@ func body(variant string, cfgs []Config, depth int, allowTLSRefusal bool) func(x
 
 		var conn *rt.Conn
 		var srv *lime.Server
+		var ip *inprocPeer
 		switch variant {
 		case "server":
 			pl := lib.NewPipeListener(tcpCfg, 64<<10, 1)
@@ -319,6 +419,23 @@ func body(variant string, cfgs []Config, depth int, allowTLSRefusal bool) func(x
 					r.srvWroteEst = true
 				}
 			}
+		case "server-inproc":
+			addr := lime.InProcessAddr("hsrv")
+			sc := lime.NewServerConfig()
+			sc.Node = lib.ServerNode
+			sc.SchemeOpts, sc.EncryptOpts, sc.CompOpts = cfg.Schemes, cfg.Enc, cfg.Comp
+			sc.Backlog, sc.ChannelBufferSize = 1, 1
+			sc.Authenticate, sc.Register = authenticate, register
+			sc.Established = func(id string, c *lime.ServerChannel) {
+				r.estCb++
+				r.estCbID = id
+				r.srvChan = c
+				x.Obs("established-callback")
+			}
+			sc.Finished = func(id string) { r.finCb++; x.Obs("finished-callback") }
+			srv = lime.NewServer(sc, &lime.EnvelopeMux{}, lime.NewBoundListener(lime.NewInProcessTransportListener(addr), addr))
+			go func() { _ = srv.ListenAndServe() }()
+			ip = &inprocPeer{t: lib.DialInProcRetry(addr, 1)}
 		case "channel":
 			c, s := rt.Pipe(64 << 10)
 			c.Name, s.Name = "client", "server"
@@ -337,17 +454,38 @@ func body(variant string, cfgs []Config, depth int, allowTLSRefusal bool) func(x
 				x.Obs("establish-returned err=%v", r.estErr != nil)
 			}()
 		}
-		peer := lib.NewRawPeer(conn)
+		var peer *lib.RawPeer
+		if ip == nil {
+			peer = lib.NewRawPeer(conn)
+		}
 		model := newModel(cfg)
 
 		tlsBroken := false
 		for step := 0; step < depth; step++ {
 			in := alpha[rt.Choose(len(alpha))]
-			so := stepObs{in: in, clientTLS: peer.Conn != peer.Raw}
-			switch in.kind {
-			case "close":
+			if ip != nil {
+				// no raw bytes on the in-process transport; instead every session input
+				// may be followed by an immediate hang-up
+				for in.kind == "garbage" || in.kind == "halfclose" || in.vanish {
+					in = alpha[0]
+				}
+				if in.kind == "session" && rt.Choose(2) == 1 {
+					in.vanish = true
+					in.name += "+vanish"
+				}
+			}
+			so := stepObs{in: in, clientTLS: peer != nil && peer.Conn != peer.Raw}
+			switch {
+			case ip != nil && in.kind == "close":
+				_ = ip.t.Close()
+			case ip != nil:
+				so.sendErr = !ip.send(in, r.sid)
+				if in.vanish {
+					_ = ip.t.Close()
+				}
+			case in.kind == "close":
 				_ = peer.Conn.Close()
-			case "halfclose":
+			case in.kind == "halfclose":
 				_ = conn.CloseWrite()
 			default:
 				so.sent = in.bytes(r.sid)
@@ -359,12 +497,18 @@ func body(variant string, cfgs []Config, depth int, allowTLSRefusal bool) func(x
 			x.Obs("step %d send %s", step, in.name)
 			if in.kind != "close" && !in.vanish {
 				for {
-					m, ok := peer.ReadOne(30 * time.Second)
+					var m map[string]interface{}
+					var ok bool
+					if ip != nil {
+						m, ok = ip.readOne()
+					} else {
+						m, ok = peer.ReadOne(30 * time.Second)
+					}
 					if !ok {
 						break
 					}
 					so.got = append(so.got, m)
-					so.gotTLS = append(so.gotTLS, peer.Conn != peer.Raw)
+					so.gotTLS = append(so.gotTLS, peer != nil && peer.Conn != peer.Raw)
 					if r.sid == "" {
 						r.sid = lib.Str(m, "id")
 					}
@@ -374,7 +518,7 @@ func body(variant string, cfgs []Config, depth int, allowTLSRefusal bool) func(x
 					x.Obs("  got state=%v", m["state"])
 					// a confirmed TLS negotiation: the client upgrades (or, as a
 					// hostile variant, keeps talking cleartext)
-					if lib.Str(m, "state") == "negotiating" && m["encryptionOptions"] == nil && lib.Str(m, "encryption") == "tls" && peer.Conn == peer.Raw {
+					if lib.Str(m, "state") == "negotiating" && m["encryptionOptions"] == nil && lib.Str(m, "encryption") == "tls" && peer != nil && peer.Conn == peer.Raw {
 						refuse := allowTLSRefusal && rt.Choose(2) == 1
 						if !refuse {
 							if err := peer.StartTLSClient(); err != nil {
@@ -416,13 +560,21 @@ func body(variant string, cfgs []Config, depth int, allowTLSRefusal bool) func(x
 		// script exhausted while the server still waits for input: the client
 		// vanishes (closes), which the server must survive and clean up after
 		if st := model.stage; st == stAwaitNew || st == stAwaitChoice || st == stAwaitAuth {
-			_ = peer.Conn.Close()
+			if ip != nil {
+				_ = ip.t.Close()
+			} else {
+				_ = peer.Conn.Close()
+			}
 			r.steps = append(r.steps, stepObs{in: input{name: "close(script-end)", kind: "close"}})
 			x.Obs("script end: client closes")
 		}
 		// closure: wait (virtual time) for the server to close the connection
 		if r.steps[len(r.steps)-1].in.kind != "close" {
-			r.eof, r.extraAfter = peer.WaitEOF(45 * time.Second)
+			if ip != nil {
+				r.eof, r.extraAfter = ip.waitEOF(45 * time.Second)
+			} else {
+				r.eof, r.extraAfter = peer.WaitEOF(45 * time.Second)
+			}
 		} else {
 			r.eof = true
 			time.Sleep(45 * time.Second)
@@ -843,6 +995,9 @@ func judge(prop string) func(x *harness.X, res *rt.Result) {
 			if (any || chanEst) && !authOK {
 				x.Failf("C03:established-unbacked", "an established session was observed (envelope=%v channel=%v) without a successful authentication+registration %s", any, chanEst, script())
 			}
+			if r.estCb > 0 && !authOK {
+				x.Failf("C03:established-callback-unbacked", "the Established callback fired although no authentication+registration had succeeded on this connection %s", script())
+			}
 			for _, a := range r.auths {
 				if a.afterFin {
 					x.Failf("C03:authenticate-after-end", "Authenticate was called after the session had failed/finished %s", script())
@@ -859,7 +1014,10 @@ func judge(prop string) func(x *harness.X, res *rt.Result) {
 		// server's point of view (its established envelope went out): not a failed handshake.
 		// Under TLS the tap cannot tell, so those paths are left undecided.
 		srvSideEstablished := r.srvWroteEst || (r.vanished && r.srvTr != nil && string(r.srvTr.Encryption()) == "tls")
-		if want("C14") && r.variant == "server" && !established && !srvSideEstablished {
+		if r.variant == "server-inproc" {
+			srvSideEstablished = false // a send to a closed in-process transport always fails
+		}
+		if want("C14") && (r.variant == "server" || r.variant == "server-inproc") && !established && !srvSideEstablished {
 			if !r.eof {
 				x.Failf("C14:not-closed:"+endClass(r, m), "handshake did not establish but the server never closed the connection (client saw no EOF within 45s of virtual time) %s", script())
 			}
@@ -1026,18 +1184,22 @@ func Main(prop string) {
 		add("server/all/d4", "server", all, 4, true, 0, -1)
 		add("server/all/d6", "server", all, 6, true, -1, 0)
 		add("server/guest/d3/k1", "server", sel("guest/none"), 3, false, 1, 1)
+		add("server-inproc/guest+plain/d3", "server-inproc", sel("guest/none", "plain/none+tls"), 3, false, 0, -1)
+		add("server-inproc/all/d4", "server-inproc", all, 4, false, -1, 0)
 	default: // C03, C07
 		add("server/all/d4", "server", all, 4, false, 0, -1)
 		add("channel/all/d4", "channel", all, 4, false, 0, -1)
 		add("server/all/d6", "server", all, 6, true, -1, 0)
 		add("channel/all/d6", "channel", all, 6, true, -1, 0)
 		add("channel/guest+plain/d3/k1", "channel", sel("guest/none", "plain/none+tls"), 3, false, -1, 1)
+		add("server-inproc/guest+plain/d3", "server-inproc", sel("guest/none", "plain/none+tls"), 3, false, 0, -1)
+		add("server-inproc/all/d4", "server-inproc", all, 4, false, -1, 0)
 	}
 	harness.Main(harness.Check{
 		Property:  prop,
 		Level:     "model_checking",
 		Rule:      "script tree: server configuration (6-point lattice of schemes x encryption x compression x TLS capability) x client script over a 33-symbol alphabet (every session state, id variants, option choices, schemes, data envelopes, undecodable input, close/half-close) to the stated depth x every Authenticate outcome (member, unknown, round-trip, error, empty role) x every Register outcome; each path is one execution of the real server code over a virtual connection (real TLS where negotiated), compared step by step with the reference model; distinct outcome = distinct observation log",
-		Assume:    []string{"TCP transport over a virtual pipe (no OS sockets); WebSocket and in-process listeners are not part of this tree", "client identity and credentials are fixed representatives; the Authenticate outcome is chosen independently of them", "deviation bound 0 for the lock-step exchange (bound 1, preemptions only, on the smallest tree in thorough); timers fire only when nothing else can run, i.e. no I/O stall is injected into the handshake"},
+		Assume:    []string{"TCP transport over a virtual pipe (no OS sockets) and, in the server-inproc scenarios, the in-process listener driven with typed envelopes (no raw bytes there; instead every session input may be followed by an immediate hang-up); WebSocket listeners are not part of this tree", "client identity and credentials are fixed representatives; the Authenticate outcome is chosen independently of them", "deviation bound 0 for the lock-step exchange (bound 1, preemptions only, on the smallest tree in thorough); timers fire only when nothing else can run, i.e. no I/O stall is injected into the handshake"},
 		Scenarios: scs,
 	})
 }
